@@ -288,7 +288,8 @@ Wrapped == Done => Matched(Top.b)
 Stable == Done => Normal(Top.b) = Top.b
 
 \* the same four, printing the case before failing (leads for the harness)
-Lead(name) == PrintT(ToJson([lead |-> name, src |-> Src(tree), norm |-> Top.b, node |-> Top.s]))
+Lead(name) == PrintT(ToJson([lead |-> name, src |-> Src(tree), built |-> Top.b, node |-> Top.s,
+                              norm |-> Normal(Src(tree))]))
 NoRegroupLead == NoRegroup \/ (Lead("regroup") /\ FALSE)
 WrappedLead   == Wrapped \/ (Lead("outer") /\ FALSE)
 StableLead    == Stable \/ (Lead("stable") /\ FALSE)
